@@ -194,7 +194,7 @@ fn rv_set(v: &[RuleViolation]) -> BTreeSet<(String, String)> {
     v.iter().map(|x| (x.rule.to_string(), x.path.clone())).collect()
 }
 
-fn compare_out(expected: &Out, got: &Out) -> Option<String> {
+fn compare_out(expected: &Out, got: &Out, start: &str) -> Option<String> {
     match (expected, got) {
         (Out::Walk(e), Out::Walk(g)) => {
             let es: BTreeSet<&String> = e.iter().filter_map(|x| x.as_ref().ok()).collect();
@@ -203,6 +203,11 @@ fn compare_out(expected: &Out, got: &Out) -> Option<String> {
                 match it {
                     Err(er) => return Some(format!("walk item Err({})", er.kind.name())),
                     Ok(p) => {
+                        // every directory before anything inside it
+                        let par = parent_of(p);
+                        if par != start && !seen.contains(&par) {
+                            return Some(format!("walk yields {:?} before its directory {:?}", p, par));
+                        }
                         if !seen.insert(p) {
                             return Some(format!("walk yields {:?} twice", p));
                         }
@@ -333,6 +338,7 @@ fn run_history(spec: &Spec, idx: u64, acc: &mut Acc) {
         let dclass = op.dest().map(|d| gen_model.class(d));
         let exp = if contract_active { model.expect(&op) } else { Exp::Unspec };
 
+        crate::panicmon::set_context(format!("tag={} history={} step={} config={} op={} [target {}] (earlier steps: {})", spec.tag, idx, step, cfg.desc(), op.render(), class.name(), h.trace.iter().rev().take(6).rev().cloned().collect::<Vec<_>>().join(" ; ")));
         built.ctl.start_recording();
         let faulted = spec.fault_permille > 0 && rng.chance(spec.fault_permille, 1000);
         if faulted {
@@ -743,7 +749,7 @@ fn contract_step(h: &Hist, prop: &'static str, step: usize, op: &Op, clsig: &str
         Exp::Ok => match res {
             Ok(out) => {
                 let expected_out = model.apply(op);
-                if let Some(m) = compare_out(&expected_out, out) {
+                if let Some(m) = compare_out(&expected_out, out, op.path()) {
                     viol("return-value", "differs".into(), format!("{} returned a wrong value: {}", op.render(), m), J::s(m.clone()));
                 }
                 let d = diff_model(after, model);
